@@ -55,6 +55,9 @@ def base_models(feature, arg=None, extra=None):
         elif f == "count_col_suffix_key":
             # counts over a nullable column whose NAME ENDS with the name of the key column (customer_id / id), not a row count
             mets.append(Metric(name="with_customer", agg="count", sql="customer_id"))
+        elif f == "filtered_numeric_text":
+            # a measure filter that compares a TEXT column with a quoted literal that looks like a number (a zip code, a product code with leading zeros): still text
+            mets.append(Metric(name="mz", agg="sum", sql="amount", filters=["{model}.status = '02134'"]))
         elif f == "count_model_placeholder":
             mets.append(Metric(name="with_customer_m", agg="count", sql="{model}.customer_id"))        # the same count written with the {model} placeholder
         elif f == "filtered":
@@ -100,7 +103,7 @@ def base_models(feature, arg=None, extra=None):
 
 FEATURES = [("agg", a) for a in AGGS] + [("count_star", None), ("count_col_named", None), ("filtered", None), ("expression", None), ("dim_type", "boolean"), ("dim_type", "numeric"), ("dim_type", "categorical_expr"),
             ("granularity", "hour"), ("granularity", "week"), ("granularity", "month"), ("composite_pk", None), ("sql_model", None),
-            ("relationship", "many_to_one"), ("relationship", "one_to_many"), ("relationship", "one_to_one"), ("segment", None), ("key_dim_alias", None), ("dim_shadows_column", None), ("composite_fk_reordered", None), ("count_col_suffix_key", None), ("count_model_placeholder", None)]
+            ("relationship", "many_to_one"), ("relationship", "one_to_many"), ("relationship", "one_to_one"), ("segment", None), ("key_dim_alias", None), ("dim_shadows_column", None), ("composite_fk_reordered", None), ("count_col_suffix_key", None), ("count_model_placeholder", None), ("filtered_numeric_text", None)]
 PAIRS = [(("agg", "avg"), ("filtered", None)), (("agg", "count_distinct"), ("composite_pk", None)), (("filtered", None), ("sql_model", None)), (("expression", None), ("dim_type", "boolean")),
          (("agg", "min"), ("granularity", "month")), (("count_col_named", None), ("filtered", None)), (("segment", None), ("sql_model", None)), (("agg", "max"), ("relationship", "one_to_many"))]
 
